@@ -19,9 +19,9 @@
       cache the global names THEN — the new one.
 
     The variant that copies BEFORE taking the lock loses the first fact. *)
-From Coq Require Import List Bool Arith Lia.
+From Coq Require Import List Bool Arith.
 Import ListNotations.
-From TI Require Import lib.Sched model.CachesHand.
+From TI Require Import lib.Sched model.CachesHand proofs.C15Arith.
 
 Definition isl (l o : xobj) : nat := if xobj_eqb l o then 1 else 0.
 
@@ -64,7 +64,7 @@ Proof. unfold isl. now rewrite xobj_eqb_refl. Qed.
 Lemma isl_other l o : l <> o -> isl l o = 0.
 Proof. unfold isl. destruct (xobj_eqb l o) eqn:E; auto. apply xobj_eqb_eq in E. congruence. Qed.
 Lemma isl_pos l o : 0 < isl l o -> l = o.
-Proof. unfold isl. destruct (xobj_eqb l o) eqn:E; intro H; [now apply xobj_eqb_eq|lia]. Qed.
+Proof. unfold isl. destruct (xobj_eqb l o) eqn:E; intro H; [now apply xobj_eqb_eq|nat_ar]. Qed.
 Lemma oupd_same {A} (f : xobj -> A) o v : oupd f o v o = v.
 Proof. unfold oupd. now rewrite xobj_eqb_refl. Qed.
 Lemma oupd_other {A} (f : xobj -> A) o o' v : o' <> o -> oupd f o v o' = f o'.
@@ -105,23 +105,23 @@ Proof.
   intros A CA E.
   assert (OTH : forall u, u <> t -> cnt (pcs u) l = 0).
   { intros u N. destruct (cnt (pcs u) l) eqn:C; auto. exfalso.
-    assert (P : 0 < cnt (pcs u) l) by lia. apply (a_own _ _ A) in P.
+    assert (P : 0 < cnt (pcs u) l) by nat_ar. apply (a_own _ _ A) in P.
     unfold can_acquire in CA. rewrite P in CA. simpl in CA. apply Nat.eqb_eq in CA. congruence. }
   assert (NEW : acquire (lk l) t = {| owner := Some t; count := cnt p' l |}).
   { rewrite E, isl_same. unfold acquire. destruct (cnt (pcs t) l) eqn:C.
     - rewrite (a_free _ _ A l). { reflexivity. }
       intro u. destruct (Nat.eq_dec u t) as [->|N]; auto.
-    - assert (P : 0 < cnt (pcs t) l) by lia. apply (a_own _ _ A) in P. rewrite P. simpl. f_equal. lia. }
+    - assert (P : 0 < cnt (pcs t) l) by nat_ar. apply (a_own _ _ A) in P. rewrite P. simpl. rewrite C, Nat.add_1_r. reflexivity. }
   constructor.
   - intros o u U. destruct (xobj_dec o l) as [->|NO].
-    + rewrite oupd_same. thr u t; auto. rewrite OTH in U by auto. lia.
+    + rewrite oupd_same. thr u t; auto. rewrite OTH in U by auto. nat_ar.
     + rewrite oupd_other by auto. thr u t.
       * rewrite E, (isl_other l o) in * by auto. rewrite Nat.add_0_r in *. now apply (a_own _ _ A).
       * now apply (a_own _ _ A).
   - intros o Z. destruct (xobj_dec o l) as [->|NO].
-    + exfalso. specialize (Z t). rewrite upd_same, E, isl_same in Z. lia.
+    + exfalso. specialize (Z t). rewrite upd_same, E, isl_same in Z. nat_ar.
     + rewrite oupd_other by auto. apply (a_free _ _ A). intro u. specialize (Z u). thr u t; auto.
-      rewrite E, (isl_other l o) in Z by auto. lia.
+      rewrite E, (isl_other l o) in Z by auto. now rewrite Nat.add_0_r in Z.
 Qed.
 
 Lemma acct_rel pcs lk t p' l :
@@ -129,19 +129,19 @@ Lemma acct_rel pcs lk t p' l :
   Acct (upd pcs t p') (oupd lk l (release (lk l))).
 Proof.
   intros A E.
-  assert (C : cnt (pcs t) l = S (cnt p' l)) by (rewrite <- E, isl_same; lia).
+  assert (C : cnt (pcs t) l = S (cnt p' l)) by (rewrite <- E, isl_same; nat_ar).
   assert (P : lk l = {| owner := Some t; count := S (cnt p' l) |}).
-  { rewrite <- C. apply (a_own _ _ A). lia. }
+  { rewrite <- C. apply (a_own _ _ A). nat_ar. }
   assert (OTH : forall u, u <> t -> cnt (pcs u) l = 0).
   { intros u N. destruct (cnt (pcs u) l) eqn:CU; auto. exfalso. apply N.
-    apply (mutex pcs lk l u t A); lia. }
+    apply (mutex pcs lk l u t A); nat_ar. }
   assert (NEW : release (lk l) = match cnt p' l with 0 => free_lock | S _ => {| owner := Some t; count := cnt p' l |} end).
   { rewrite P. unfold release. simpl. destruct (cnt p' l); reflexivity. }
   constructor.
   - intros o u U. destruct (xobj_dec o l) as [->|NO].
     + rewrite oupd_same, NEW. thr u t.
-      * destruct (cnt p' l); [lia|reflexivity].
-      * rewrite OTH in U by auto. lia.
+      * destruct (cnt p' l); [nat_ar|reflexivity].
+      * rewrite OTH in U by auto. nat_ar.
     + rewrite oupd_other by auto. thr u t.
       * specialize (E o). rewrite (isl_other l o) in E by auto. rewrite Nat.add_0_r in E. rewrite E in *.
         now apply (a_own _ _ A).
@@ -149,7 +149,7 @@ Proof.
   - intros o Z. destruct (xobj_dec o l) as [->|NO].
     + rewrite oupd_same, NEW. specialize (Z t). rewrite upd_same in Z. now rewrite Z.
     + rewrite oupd_other by auto. apply (a_free _ _ A). intro u. specialize (Z u). thr u t; auto.
-      specialize (E o). rewrite (isl_other l o) in E by auto. lia.
+      specialize (E o). rewrite (isl_other l o) in E by auto. rewrite Nat.add_0_r in E. congruence.
 Qed.
 
 (** ** everything else *)
@@ -231,8 +231,8 @@ Proof.
       assert (l = XOld). { apply (r_old _ _ _ _ _ R O t). rewrite T. simpl. auto. } subst l.
       assert (0 < cnt (pcs u) XOld).
       { destruct (pcs u) eqn:PU; simpl in B; try discriminate.
-        assert (l = XOld). { apply (r_old _ _ _ _ _ R O u). rewrite PU. simpl. auto. } subst. simpl. rewrite isl_same. lia. }
-      apply n. apply (mutex pcs lk XOld u t A); auto. lia.
+        assert (l = XOld). { apply (r_old _ _ _ _ _ R O u). rewrite PU. simpl. auto. } subst. simpl. rewrite isl_same. nat_ar. }
+      apply n. apply (mutex pcs lk XOld u t A); auto. nat_ar.
     + reflexivity.
   - intros u l2 S. thr u t; [discriminate|]. now apply (r_sync _ _ _ _ _ R u).
   - intros f C. rewrite oupd_same in C. discriminate.
@@ -240,8 +240,8 @@ Proof.
     destruct (r_held _ _ _ _ _ R g l2 f G N) as [u I]. exists u. thr u t; auto.
     (* the witness is [t] itself: it holds the getter's second lock *)
     exfalso. rewrite T in I. simpl in I. apply xobj_eqb_eq in I. subst l2.
-    apply n. apply (mutex pcs lk l g t A); [|lia].
-    destruct (pcs g); simpl in G; try discriminate. inversion G; subst. simpl. rewrite isl_same. lia.
+    apply n. apply (mutex pcs lk l g t A); [|nat_ar].
+    destruct (pcs g); simpl in G; try discriminate. inversion G; subst. simpl. rewrite isl_same, Nat.add_1_r. nat_ar.
 Qed.
 
 (** [XGWrite l1 l2 f -> XGRel2 l1 l2 f]: the current cache is written *)
@@ -261,8 +261,8 @@ Proof.
     + exfalso. assert (O : curl = XOld). { apply (r_sold _ _ _ _ _ R u). destruct (pcs u); simpl in *; congruence. }
       assert (0 < cnt (pcs u) XOld).
       { destruct (pcs u) eqn:PU; simpl in B; try discriminate.
-        assert (l = XOld). { apply (r_old _ _ _ _ _ R O u). rewrite PU. simpl. auto. } subst. simpl. rewrite isl_same. lia. }
-      apply n. apply (mutex pcs lk XOld u t A); auto. rewrite T. simpl. subst l2. rewrite O, isl_same. lia.
+        assert (l = XOld). { apply (r_old _ _ _ _ _ R O u). rewrite PU. simpl. auto. } subst. simpl. rewrite isl_same. nat_ar. }
+      apply n. apply (mutex pcs lk XOld u t A); auto. rewrite T. simpl. subst l2. rewrite O, isl_same, Nat.add_1_r. nat_ar.
     + reflexivity.
   - intros u l0 S. thr u t; [discriminate|]. now apply (r_sync _ _ _ _ _ R u).
   - intros f0 C N. rewrite oupd_same in C. inversion C; subst f0.
@@ -328,18 +328,18 @@ Proof.
   intros A R T.
   assert (O : curl = XOld). { apply (r_sold _ _ _ _ _ R t). now rewrite T. }
   assert (l = XOld). { apply (r_old _ _ _ _ _ R O t). rewrite T. simpl. auto. } subst l.
-  assert (CT : 0 < cnt (pcs t) XOld). { rewrite T. simpl. rewrite isl_same. lia. }
+  assert (CT : 0 < cnt (pcs t) XOld). { rewrite T. simpl. rewrite isl_same. nat_ar. }
   constructor.
   - discriminate.
   - intros u N. exfalso. thr u t; [discriminate|].
     apply n. apply (mutex pcs lk XOld u t A); auto.
     destruct (pcs u) eqn:PU; simpl in N; try discriminate;
-      (assert (l = XOld) by (apply (r_old _ _ _ _ _ R O u); rewrite PU; simpl; auto)); subst; simpl; rewrite ?isl_same; lia.
+      (assert (l = XOld) by (apply (r_old _ _ _ _ _ R O u); rewrite PU; simpl; auto)); subst; simpl; rewrite ?isl_same, ?Nat.add_1_r; nat_ar.
   - intros u B. thr u t; [discriminate|]. now apply (r_copy _ _ _ _ _ R u).
   - intros u l2 S. exfalso. thr u t; [discriminate|].
     apply n. apply (mutex pcs lk XOld u t A); auto.
     destruct (pcs u) eqn:PU; simpl in S; try discriminate;
-      (assert (l1 = XOld) by (apply (r_old _ _ _ _ _ R O u); rewrite PU; simpl; auto)); subst; simpl; rewrite ?isl_same; lia.
+      (assert (l1 = XOld) by (apply (r_old _ _ _ _ _ R O u); rewrite PU; simpl; auto)); subst; simpl; rewrite ?isl_same, ?Nat.add_1_r; nat_ar.
   - intros f C N. destruct (r_cache _ _ _ _ _ R f C N) as [u P]. exists u. thr u t; auto.
     rewrite T in P. discriminate.
   - intros g l0 f0 G N. thr g t; [discriminate|].
@@ -378,7 +378,7 @@ Proof. unfold upd. destruct (Nat.eqb u t); reflexivity. Qed.
 
 Lemma xinv_init f0 warm prog : XInv (xinit f0 warm prog).
 Proof.
-  split; constructor; unfold pcs_of; simpl; intros; try discriminate; try tauto; try lia; try reflexivity.
+  split; constructor; unfold pcs_of; simpl; intros; try discriminate; try tauto; try nat_ar; try reflexivity.
   exfalso. destruct warm; [|discriminate]. inversion H. congruence.
 Qed.
 
@@ -564,8 +564,8 @@ Example hand_keeps_entry :
   x_done s 1 /\ x_curl s = XNew /\ x_curc s = XNew /\ x_cache s XNew = Some true /\ x_ncomp s = 0
   /\ x_rets (x_th s 0) = [true].
 Proof.
-  cbv zeta. split; [|repeat split; vm_compute; reflexivity].
-  intros t Lt. destruct t as [|t]; [split; vm_compute; reflexivity|lia].
+  cbv zeta. split; [|repeat match goal with |- _ /\ _ => split end; vm_compute; reflexivity].
+  intros t Lt. destruct t as [|t]; [split; vm_compute; reflexivity|nat_ar].
 Qed.
 
 (** ** non-vacuity and the refutation of the variant
@@ -584,8 +584,8 @@ Example hand_toggle_at_copy :
   x_done s 2 /\ x_flag s = true /\ x_curc s = XNew /\ x_curl s = XNew
   /\ x_cache s XNew = None /\ x_cache s XOld = Some false /\ x_answer s = x_flag s.
 Proof.
-  cbv zeta. split; [|repeat split; vm_compute; reflexivity].
-  intros t Lt. destruct t as [|[|t]]; [split; vm_compute; reflexivity|split; vm_compute; reflexivity|lia].
+  cbv zeta. split; [|repeat match goal with |- _ /\ _ => split end; vm_compute; reflexivity].
+  intros t Lt. destruct t as [|[|t]]; [split; vm_compute; reflexivity|split; vm_compute; reflexivity|nat_ar].
 Qed.
 
 (** the variant that copies BEFORE it takes the lock: thread 0 tests and copies (two
@@ -604,7 +604,7 @@ Proof.
   assert (D : forall t, x_pc (x_th (run_sched (xstep_gen true) (xinit false true hd_prog) hd_sched_early) t) = XIdle).
   { intro t. destruct t as [|[|t]]; vm_compute; reflexivity. }
   split; [|split; [|split; [|split; [|split]]]].
-  - intros t Lt. destruct t as [|[|t]]; [split; vm_compute; reflexivity|split; vm_compute; reflexivity|lia].
+  - intros t Lt. destruct t as [|[|t]]; [split; vm_compute; reflexivity|split; vm_compute; reflexivity|nat_ar].
   - intros u [E|[l [E|E]]]; rewrite D in E; discriminate.
   - vm_compute. reflexivity.
   - vm_compute. reflexivity.
@@ -618,6 +618,6 @@ Example hand_real_code_same_schedule :
   let s := run_sched xstep (xinit false true hd_prog) (hd_sched_early ++ [0; 0; 0; 1; 1; 1; 1]) in
   x_done s 2 /\ x_flag s = true /\ x_answer s = x_flag s /\ x_cache s (x_curc s) = None.
 Proof.
-  cbv zeta. split; [|repeat split; vm_compute; reflexivity].
-  intros t Lt. destruct t as [|[|t]]; [split; vm_compute; reflexivity|split; vm_compute; reflexivity|lia].
+  cbv zeta. split; [|repeat match goal with |- _ /\ _ => split end; vm_compute; reflexivity].
+  intros t Lt. destruct t as [|[|t]]; [split; vm_compute; reflexivity|split; vm_compute; reflexivity|nat_ar].
 Qed.
